@@ -11,6 +11,11 @@ def run(tier):
     d, cases, outs = common.mc_replay(rep, binary, PROP, "MC_C13", keyf=common.default_key)
     # (b) impl -> spec: value-level mutations of the accepted key-exchange encodings, compared with the specification's answer
     common.dfuzz(rep, binary, PROP, cases, 3000 if tier != "thorough" else 60000)
+    # all 65536 named groups / all 256 hash and signature codes through every structure of this property that carries them (the sites of MC_C11)
+    common.site_sweep(rep, binary, PROP, keep=lambda s: s["fn"] in ("parse_ecdh_params", "parse_ec_parameters", "parse_content_and_signature", "ECParametersContent::parse",
+                                                                    "deep_server_key_exchange", "parse_digitally_signed"))
+    # (growth) every length of the variable-size fields, not only the boundaries (MC_LenSweep)
+    common.len_sweep(rep, binary, PROP)
     return rep.finish("model_checking",
                       "cases = RFC encodings of ServerDHParams (field lengths 0/1/255/256/65535), ECPoint, ECParameters (named "
                       "groups, explicit prime), ServerECDHParams, both DigitallySigned forms, with suffixes; every strict prefix of the "
